@@ -1023,12 +1023,12 @@ impl BuiltInFunction {
                     unreachable!()
                 };
 
-                Ok((
-                    Some(Primitive::Str(
-                        String::from_utf8_lossy(&[*byte]).into_owned(),
-                    )),
-                    None,
-                ))
+                // ASCII ends at 127; `from_utf8_lossy` would answer U+FFFD for the other half
+                if !byte.is_ascii() {
+                    bail!("`{byte}` is not an ASCII code (0 to 127)")
+                }
+
+                Ok((Some(Primitive::Str(char::from(*byte).to_string())), None))
             }
             Self::FloatFPart => {
                 let Some(Primitive::Float(float)) = arguments.first() else {
